@@ -105,7 +105,7 @@ func rowsString(rows []sut.WalkRow) string {
 var c03Ops = []string{"text", "text-fmt1", "text-fmt5", "json", "yaml", "toml", "walk", "walkiter", "text-massive", "walk-massive", "json-massive"}
 var massiveHung bool
 
-var c03FSOps = []string{"mkdir", "mkdir-ext", "verify", "verify-strict", "mkdir-dry", "mkdir+verify-strict"}
+var c03FSOps = []string{"mkdir", "mkdir-ext", "verify", "verify-strict", "mkdir-dry", "mkdir+verify-strict", "mkdir-massive", "verify-massive", "mkdir-dry-massive"}
 
 // c03Op runs one operation through the From-Root family (root != nil) or the From-Markdown family.
 func c03Op(op string, root *gtree.Node, doc string, alias bool) (res opResult, pan string) {
@@ -536,6 +536,22 @@ func init() {
 				c.Nontrivial()
 				c.Inc("wide_fanout_sequences")
 				c03Sequence(c, calls, k <= 6)
+			}
+		}
+		// a root whose own name is not a valid path element, with k children (around typical worker / fan-out thresholds):
+		// every validating operation must reject it exactly as the Markdown side does, also with the massive option
+		for _, k := range []int{0, 1, 3, 9, 10, 11, 16, 33} {
+			for _, rn := range []string{"ro/ot", "..", "."} {
+				if !c.Take() {
+					continue
+				}
+				calls := []addCall{{-1, rn}}
+				for j := 0; j < k; j++ {
+					calls = append(calls, addCall{0, fmt.Sprintf("c%02d", j)})
+				}
+				c.StateN(1)
+				c.Nontrivial()
+				c03Sequence(c, calls, true)
 			}
 		}
 		// one hostile name at one call position, D <= 4
